@@ -39,12 +39,12 @@ RTOL_REL = 1e-12                  # relations between logged floats (natural run
 
 MECH = dict(MSliceExtra=False, MClipInit=False, MNeverRaise=False, MMulFirst=False, MTestPrev=False,
             MReturnUnconverged=False, MWarmupRule=False, MEntryPerIteration=False, MGlobalStepCount=False,
-            MResetTentative=False)
+            MResetTentative=False, MErrOnIncrement=False)
 
 INV_C12 = ["TypeOK", "DtPositive", "DtAtMostMax", "NonAdaptiveDtIsInit", "RetriesBounded", "ReturnedDtIsAnswered"]
 PROP_C12 = ["FirstAttemptUsesTentative", "DtKeptAcrossScreeningIterations", "RetryMultiplies",
             "RetriesExhaustedRaises", "TentativeFollowsWindowRule", "TentativeChangesOnlyAtFinish"]
-INV_C13 = ["TypeOK", "AcceptedStepConverged", "IterationsBounded", "NoScreeningNoInduced", "LinksFollowIterate"]
+INV_C13 = ["TypeOK", "AcceptedStepConverged", "AcceptedIterateIsSelfConsistent", "IterationsBounded", "NoScreeningNoInduced", "LinksFollowIterate"]
 PROP_C13 = ["NonConvergenceRaises", "ConvergedStops", "PolyakUpdate", "ErrorIsRelativeMismatch",
             "VelocityRestartsEachStep", "DtKeptAcrossScreeningIterations"]
 OBS_C12 = ["ObsDtPositive", "ObsDtAtMostMax", "ObsNonAdaptiveDtIsInit"]
@@ -53,7 +53,7 @@ OBS_C13 = ["ObsNoScreeningInducedZero", "ObsFrameSelfConsistent"]
 SET_KEYS = ["Thermals", "Adaptives", "Screenings", "Windows", "RetrySet", "MulExps", "InitEs", "MaxE4s", "Deltas", "MaxIters",
             "TolExps", "AlphaExps", "BetaQs", "Kicks"]
 DEFAULT_BOUNDS = dict(Thermals=[False], MaxThermal=3, Adaptives=[True], Screenings=[False], Windows=[1], RetrySet=[1], MulExps=[1], InitEs=[4],
-                      MaxE4s=[5], Deltas=[0, 1024], MaxIters=[2], TolExps=[7], AlphaExps=[0], BetaQs=[4], Kicks=[1],
+                      MaxE4s=[5], Deltas=[0, 1024], MaxIters=[2], TolExps=[7], AlphaExps=[1], BetaQs=[4], Kicks=[1],
                       MaxSteps=4, MaxRefusals=2)
 
 
@@ -400,7 +400,8 @@ def natural_run(tdgl, p, tmp=None, opts=None):
         if (np.abs(v_new - v_exp).max() <= RTOL_REL * scale_v and np.abs(np.asarray(A_new) - A_exp).max() <= RTOL_REL * scale_a
                 and np.array_equal(np.asarray(A_induced_vals[-1]), np.asarray(A_new))):
             rels.append("polyak")
-        err_exp = float(np.max(np.linalg.norm(dA, axis=1) / np.maximum(np.linalg.norm(A_exp, axis=1), 1e-20)))
+        # relative mismatch between the kernel output and the iterate that is returned
+        err_exp = float(np.max(np.linalg.norm(K - A_exp, axis=1) / np.maximum(np.linalg.norm(A_exp, axis=1), 1e-20)))
         if close(float(err), err_exp, 1e-9):
             rels.append("error")
         J_site = self.device.mesh.get_quantity_on_site(np.asarray(current_density))
